@@ -124,6 +124,12 @@ func runTLSHistory(c tlsCase, cert tls.Certificate, hi int) (problems []string) 
 			if x.tc == nil || !x.shook.Load() {
 				continue // already reported at the handshake step
 			}
+			if hi%2 == 1 {
+				// (virtual) time passes on an established connection: nothing in TlsAccept.tla depends on how long a client
+				// waits between its handshake and a request
+				time.Sleep(2 * time.Minute)
+				synctest.Wait()
+			}
 			msg := kmip.NewRequestMessage(kmip.V1_2, &payloads.ActivateRequestPayload{UniqueIdentifier: fmt.Sprintf("h%d.c%d", hi, s.C)})
 			var got atomic.Value
 			go func() {
